@@ -111,7 +111,122 @@ func c14RangeTracks(c *Ctx) {
 			}
 		}
 	}
-	c.Floor("range.tracks paths", n, 2, "the attribute-only splat traversal loop")
+	// the same pairing when the two variables live in memory cells (captured by a closure that
+	// records a step): after an append is stored into the slice cell, the range cell is stored
+	// before the function returns or appends again
+	for _, fn := range c.P.pkgFuncs("hclsyntax") {
+		cellOf := func(addr ssa.Value) ssa.Value {
+			switch addr.(type) {
+			case *ssa.FreeVar, *ssa.Alloc:
+				return addr
+			}
+			return nil
+		}
+		var tStores, rStores []*ssa.Store
+		for _, b := range fn.Blocks {
+			for _, ins := range b.Instrs {
+				st, ok := ins.(*ssa.Store)
+				if !ok || cellOf(st.Addr) == nil {
+					continue
+				}
+				et := st.Addr.Type().Underlying().(*types.Pointer).Elem()
+				if isNamed(et, modPath, "Range") {
+					rStores = append(rStores, st)
+					continue
+				}
+				if _, isSlice := et.Underlying().(*types.Slice); !isSlice || isNamed(et, modPath, "Diagnostics") {
+					continue
+				}
+				if call, ok := st.Val.(*ssa.Call); ok {
+					if bt, ok := call.Call.Value.(*ssa.Builtin); ok && bt.Name() == "append" {
+						if ld, ok := call.Call.Args[0].(*ssa.UnOp); ok && ld.Op == token.MUL && ld.X == st.Addr {
+							tStores = append(tStores, st)
+						}
+					}
+				}
+			}
+		}
+		if len(tStores) == 0 || len(rStores) == 0 {
+			continue
+		}
+		for _, ts := range tStores {
+			for _, rcell := range func() []ssa.Value {
+				seen := map[ssa.Value]bool{}
+				var out []ssa.Value
+				for _, rs := range rStores {
+					if !seen[rs.Addr] {
+						seen[rs.Addr] = true
+						out = append(out, rs.Addr)
+					}
+				}
+				return out
+			}() {
+				isR := func(ins ssa.Instruction) bool {
+					st, ok := ins.(*ssa.Store)
+					return ok && st.Addr == rcell
+				}
+				// tracked together: some append-store to this slice cell is followed by a store to rcell
+				follows := func(from *ssa.Store) (bool, token.Pos) {
+					b := from.Block()
+					idx := 0
+					for i, ins := range b.Instrs {
+						if ins == ssa.Instruction(from) {
+							idx = i + 1
+						}
+					}
+					seen := map[*ssa.BasicBlock]bool{}
+					bad := token.NoPos
+					var walk func(bb *ssa.BasicBlock, i0 int) bool // true: every path passes an R store first
+					walk = func(bb *ssa.BasicBlock, i0 int) bool {
+						for _, ins := range bb.Instrs[i0:] {
+							if isR(ins) {
+								return true
+							}
+							if r, ok := ins.(*ssa.Return); ok {
+								bad = r.Pos()
+								return false
+							}
+							if st, ok := ins.(*ssa.Store); ok && st.Addr == from.Addr {
+								bad = st.Pos()
+								return false
+							}
+						}
+						for _, su := range bb.Succs {
+							if seen[su] {
+								continue
+							}
+							seen[su] = true
+							if !walk(su, 0) {
+								return false
+							}
+						}
+						return true
+					}
+					ok := walk(b, idx)
+					return ok, bad
+				}
+				together := false
+				for _, t2 := range tStores {
+					if t2.Addr == ts.Addr {
+						if ok, _ := follows(t2); ok {
+							together = true
+						}
+					}
+				}
+				if !together {
+					continue
+				}
+				n++
+				c.Sites++
+				c.Fn(FuncName(fn))
+				ok, _ := follows(ts)
+				key := fmt.Sprintf("%s:cells[%s,%s]", FuncName(fn), ts.Addr.Name(), rcell.Name())
+				c.Check(ok, "range.tracks", key, ts.Pos(), "the range of the last item is stored with the item",
+					"an item is appended to `"+ts.Addr.Name()+"` and the function returns or appends again without storing `"+rcell.Name()+"`: the node's source range stops before the last item")
+			}
+		}
+	}
+	c.Floor("range.tracks paths", n, 1, "the attribute-only splat traversal loop")
 }
 
 // scanner.snapshot: in RangeScanner.Scan the running position `new` is advanced per grapheme
